@@ -1,3 +1,4 @@
+//! (FIXED in /repo ffd31c4: every case prints `ok` now.)
 //! Native reproducer for the finding of vx/batches/relocate.py ([C10:reloc-wf-kept] on `RelocateReader::empty`,
 //! twin Kani harnesses k_eslice_empty_position / k_reloc_empty_then_read).
 //!
